@@ -18,7 +18,8 @@ def body_of(r):
 CREDS = [(b"alice", b"secret"), (b"u" * 255, b"p" * 255), (b"u" * 256, b"p" * 256), (b"u" * 257, b"p" * 257),
          (b"x" * 4096, b"y" * 5000), (b"", b""), (b"a", b"\xc3\xbc\xff:\n pw"), (b"bob@example.org", b"p" * 300)]
 OPTS = [["use_first_pass"], ["try_first_pass", "debug"], [], ["debug", "not_set_pass"], ["bogus_option", "timeout=0"],
-        ["timeout=abc", "use_first_pass"], ["sock=", "use_first_pass"]]
+        ["timeout=abc", "use_first_pass"], ["sock=", "use_first_pass"], ["timeout=-1", "debug"], ["timeout=-7", "use_first_pass"],
+        ["timeout=", "debug", "use_first_pass"]]
 
 
 def build(ctx):
@@ -47,7 +48,9 @@ def run_script(exe, work, idx, edge):
     s = edge["script"]
     r = s["reply"]
     user, pw = CREDS[idx % len(CREDS)]
-    opts = OPTS[idx % len(OPTS)]
+    opts = OPTS[(idx // 3) % len(OPTS)]
+    if r["body"] >= 250 and "debug" not in opts:          # long replies always also with the debug log on
+        opts = opts + ["debug"]
     mode = "conv" if "use_first_pass" not in opts and "try_first_pass" not in opts else "stack"
     d = os.path.join(work, "c%d" % idx)
     os.makedirs(d, exist_ok=True)
@@ -113,7 +116,7 @@ def run_script(exe, work, idx, edge):
         th.start()
     argv = [exe, os.path.join(d, "user"), os.path.join(d, "pw"), mode, "4" if s["staleErrno"] else "0"]
     argv += [o for o in opts if not o.startswith("sock=") and not o.startswith("timeout=")] + ["timeout=%d" % TIMEOUT_S, "sock=" + sock]
-    argv += [o for o in opts if o.startswith("timeout=") and o != "timeout=%d" % TIMEOUT_S and not o[8:].isdigit() or o == "timeout=0"]
+    argv += [o for o in opts if o.startswith("timeout=") and (not o[8:].isdigit() or o == "timeout=0")]   # invalid ones: must be ignored
     env = dict(os.environ, ASAN_OPTIONS="detect_leaks=1:abort_on_error=0", UBSAN_OPTIONS="print_stacktrace=1:halt_on_error=0")
     t0 = time.time()
     try:
@@ -169,3 +172,74 @@ def run_all(ctx, edges, workers=48):
     os.makedirs(work, exist_ok=True)
     with concurrent.futures.ThreadPoolExecutor(max_workers=workers) as ex:
         return list(ex.map(lambda ie: run_script(exe, work, ie[0], ie[1]), enumerate(edges)))
+
+
+def run_sequence(exe, work, idx, edges):
+    """Several authentications in ONE process (one scripted server each): the module must not carry state over."""
+    d = os.path.join(work, "q%d" % idx)
+    os.makedirs(d, exist_ok=True)
+    open(os.path.join(d, "user"), "wb").write(b"alice")
+    open(os.path.join(d, "pw"), "wb").write(b"secret")
+    socks, threads, srvs = [], [], []
+    for k, e in enumerate(edges):
+        s = e["script"]
+        sp = os.path.join(d, "s%d" % k)
+        socks.append(sp)
+        if not s["reachable"]:
+            continue
+        srv = socket.socket(socket.AF_UNIX, socket.SOCK_STREAM)
+        srv.bind(sp)
+        srv.listen(2)
+        srv.settimeout(8)
+        srvs.append(srv)
+        reply = struct.pack(">H", s["reply"]["L"]) + body_of(s["reply"])
+
+        def serve(srv=srv, reply=reply, s=s):
+            try:
+                c, _ = srv.accept()
+            except Exception:
+                return
+            c.settimeout(0.05)
+            try:
+                c.recv(65536)
+            except Exception:
+                pass
+            try:
+                if reply[:s["cut"]]:
+                    c.sendall(reply[:s["cut"]])
+                c.shutdown(socket.SHUT_RDWR)
+            except Exception:
+                pass
+            c.close()
+        t = threading.Thread(target=serve, daemon=True)
+        t.start()
+        threads.append(t)
+    env = dict(os.environ, ASAN_OPTIONS="detect_leaks=1:abort_on_error=0", PAMDRV_SOCKS=",".join(socks))
+    try:
+        p = subprocess.run([exe, os.path.join(d, "user"), os.path.join(d, "pw"), "stack", "0", "use_first_pass", "timeout=%d" % TIMEOUT_S],
+                           stdout=subprocess.PIPE, stderr=subprocess.PIPE, timeout=12, env=env)
+        rcs = [int(x) for x in re.findall(r"RC (\d+)", p.stdout.decode())]
+        err = p.stderr.decode(errors="replace")[-800:]
+    except subprocess.TimeoutExpired:
+        rcs, err = None, "timeout"
+    for t in threads:
+        t.join(1)
+    for srv in srvs:
+        srv.close()
+    return {"edges": edges, "rcs": rcs, "stderr": err}
+
+
+def judge_sequences(ctx, results, prop="C20"):
+    n = 0
+    for r in results:
+        n += 1
+        if r["rcs"] is None or len(r["rcs"]) != len(r["edges"]):
+            ctx.violation(prop, "sequence:no-result", "%s %s" % (r["rcs"], r["stderr"][-300:]))
+            continue
+        for k, (e, rc) in enumerate(zip(r["edges"], r["rcs"])):
+            if (rc == 0) != e["success"]:
+                s = e["script"]
+                ctx.violation(prop, "sequence:call-%d-success=%s:%s/cut=%s" % (k + 1, rc == 0, s["reply"]["id"], s["cut"]),
+                              "authentication %d of one process returned %d, the server script demands success=%s (previous replies: %s)" % (
+                                  k + 1, rc, e["success"], [x["script"]["reply"]["id"] for x in r["edges"][:k]]))
+    return n
